@@ -663,14 +663,6 @@ func conform(m *vlib.Model, tr Trace) (string, error) {
 // ---------------------------------------------------------------------------------------------
 // generators
 
-// sim tracks just enough of the expected statuses to generate applicable actions.
-type sim struct {
-	k      int
-	st     []byte // I A B X(arrived or beyond)
-	canc   []bool
-	holder int // waiter at A (holding the lock), or -2 = possibly held by a returned waiter
-}
-
 func settleActs(k int) []Act {
 	// open every gate in index order, then hand the lock round so that every woken waiter returns
 	var out []Act
@@ -1004,7 +996,7 @@ func TestVerif(t *testing.T) {
 		"(random; several un-parked waiters + signal burst; parked first; Broadcast at every stage; context expiry at every stage; token must survive an expiry; rounds), "+
 		"each followed by a settling suffix, run against the real ContextCond under synctest with a gated Locker; "+
 		"a case is non-trivial if at least two waiters released the lock and at least one Signal/Broadcast/expiry happened while a waiter was waiting; "+
-		"distinct = different executed action sequence. thorough adds every applicable action sequence of length <= 6 over 2 waiters")
+		"distinct = different executed action sequence. thorough adds every applicable action sequence of length 5 over 2 waiters (each followed by the settling suffix)")
 	m, err := vlib.StartModel(env.Driver, "cond")
 	if err != nil {
 		res.ModelMissing = err.Error()
